@@ -4,6 +4,7 @@ import IofloModel.Drv.Proto
 driver for the RemoteStack index model (names and host addresses: alphanumeric tokens, `_` = the empty string)
 
   init <puid> <uid|~> <name|~> <ha|~>     a new stack (local device fields given or defaulted)
+  initip …                                the same with an IpLocalDevice; createip … = IpRemoteDevice(stack, …)
   create <uid|~> <name|~> <ha|~>          RemoteDevice(stack, …)          → ref <object>
   add r | move r <uid> | rename r <name> | reha r <ha> | remove r | removeall
 
@@ -16,6 +17,19 @@ abbrev S := St String String
 
 def defaultName (u : Nat) : String := "Device" ++ toString u
 def defaultHa : String := ""
+
+/-- Ip devices: an address token is `<host code><port>`; the host codes `e` (''), `z` ('0.0.0.0'), `l` ('localhost'),
+`L` ('LOCALHOST') are spellings of `n` ('127.0.0.1'), `c` ('::') and `f` ('0:0:0:0:0:0:0:0') of `o` ('::1');
+any other code stands for itself.  This is `IpDevice.__init__`'s normalisation on tokens. -/
+def normTok (s : String) : String :=
+  match s.toList with
+  | c :: rest =>
+    if c == 'e' || c == 'z' || c == 'l' || c == 'L' then String.ofList ('n' :: rest)
+    else if c == 'c' || c == 'f' then String.ofList ('o' :: rest)
+    else s
+  | [] => s
+/-- `('127.0.0.1', stack.Port)` -/
+def defaultIpHa : String := "n12357"
 
 def okTok (s : String) : Bool := s ≠ "" && s.toList.all (fun c => c.isAlphanum)
 def str? (s : String) : Option String := if s == "_" then some "" else if okTok s then some s else none
@@ -40,6 +54,7 @@ def fmtOut : Out → String
 
 def op? : List String → Option (Ioflo.Remotes.Op String String)
   | ["create", u, n, h] => do let u ← optNat? u; let n ← optStr? n; let h ← optStr? h; some (.create u n h)
+  | ["createip", u, n, h] => do let u ← optNat? u; let n ← optStr? n; let h ← optStr? h; some (.createIp u n h)
   | ["add", r] => do let r ← r.toNat?; some (.add r)
   | ["move", r, u] => do let r ← r.toNat?; let u ← u.toNat?; some (.move r u)
   | ["rename", r, n] => do let r ← r.toNat?; let n ← str? n; some (.rename r n)
@@ -56,11 +71,17 @@ def step (s : S) (line : String) : S × String :=
       let s' := init defaultName defaultHa p u n h
       (s', "ok | " ++ dump s')
     | _, _, _, _ => (s, "bad-op")
+  | ["initip", p, u, n, h] =>
+    match p.toNat?, optNat? u, optStr? n, optStr? h with
+    | some p, some u, some n, some h =>
+      let s' := initIp defaultName normTok defaultIpHa p u n h
+      (s', "ok | " ++ dump s')
+    | _, _, _, _ => (s, "bad-op")
   | ws =>
     match op? ws with
     | none => (s, "bad-op")
     | some op =>
-      match Ioflo.Remotes.step defaultName defaultHa s op with
+      match Ioflo.Remotes.step defaultName defaultHa normTok defaultIpHa s op with
       | (_, .bad) => (s, "bad-op")
       | (s', o) => (s', fmtOut o ++ " | " ++ dump s')
 
